@@ -356,7 +356,7 @@ def body(data) -> Outcome:
     return out
 
 
-def campaigns(tier):
+def _base_campaigns(tier):
     strat = st.fixed_dictionaries(
         {
             "prog": dag_programs(max_funcs=6, min_funcs=2, cache=True),
@@ -404,3 +404,12 @@ def _pred_shared_by_cached_and_uncached(case, failure) -> bool:
 
 
 PREDICATES = {"shared_by_cached_and_uncached": _pred_shared_by_cached_and_uncached}
+
+
+def campaigns(tier):
+    camps = list(_base_campaigns(tier))
+    if tier == "thorough":  # coverage-guided search over the same structured cases (fuzz/hyp_fuzz.py)
+        from vlib.core import cov_fuzz_campaign
+
+        camps.append(cov_fuzz_campaign(PID, [('lazy', 6000)]))
+    return camps
